@@ -118,7 +118,82 @@ def draw_encoding(rng, g):
             "omit_version": rng.random() < 0.3, "extra_attrs": rng.random() < 0.5, "siblings": rng.random() < 0.5,
             "extra_meta": rng.random() < 0.5, "strings": rng.choice(["fixed", "fixed", "vlen"]),
             "vlen_values_dtype": rng.choice(["uint64", "uint64", "uint64", "int64"]),
-            "directed": rng.random() < 0.5, "store": rng.choice(["mem"] * 8 + ["local", "path"])}
+            "directed": rng.random() < 0.5, "store": rng.choice(["mem"] * 8 + ["local", "path"]),
+            # where the sections of a variable-length property lie in `data`: a plan drawn per property (`draw_plan`), or the
+            # older back-to-front-with-gaps layout
+            "vlen_layout": rng.choice(["free", "free", "legacy"])}
+
+
+# ----------------------------------------------------------------- layout freedom of a variable-length property
+def draw_plan(rng, n):
+    """a random layout plan for `n` elements (see `lay_out`)"""
+    order = list(range(n))
+    mode = rng.choice(["row", "reverse", "shuffle", "shuffle", "swap", "rotate"])
+    if mode == "reverse":
+        order.reverse()
+    elif mode == "shuffle":
+        rng.shuffle(order)
+    elif mode == "swap" and n >= 2:
+        i, j = rng.sample(range(n), 2)
+        order[i], order[j] = order[j], order[i]
+    elif mode == "rotate" and n >= 2:
+        k = rng.randrange(1, n)
+        order = order[k:] + order[:k]
+    # half of the plans are gap-free (the sections tile `data`, in whatever order)
+    pg = rng.choice([0.0, 0.0, 0.15, 0.5])
+    return {"order": order, "gaps": [rng.randint(1, 2) if rng.random() < pg else 0 for _ in range(n)],
+            "trail": rng.choice([0, 0, 0, 1, 3]) if pg else 0, "share": rng.random() < 0.3,
+            "missing_unplaced": rng.random() < 0.3}
+
+
+def lay_out(elems, missing, plan, dt):
+    """The specification says of a variable-length property only that `data` holds the flattened values and that row i
+    of `values` is `(offset, *shape)` of "the relevant section of data": WHERE the sections lie is the writer's choice.
+    `plan` fixes one choice:
+      order             the order in which the elements are appended to `data` (any permutation of the rows)
+      gaps[k]           unused cells put in front of the k-th appended element (gaps[0] > 0: the first section does not
+                        start at 0)
+      trail             unused cells after the last section
+      share             an element whose cells already occur, contiguously, in what has been laid out so far is not
+                        appended again: its row points INTO the earlier cells (shared / overlapping sections)
+      missing_unplaced  an element marked missing gets no section at all: its row is (0, 0, ..., 0)
+    Returns (rows, data).  Every row satisfies data[offset : offset + prod(shape)].reshape(shape) == element (except
+    under `missing_unplaced`, where the element is ignored by every reader)."""
+    n = len(elems)
+    ndim = elems[0].ndim if elems else 1
+    same_dtype = all(e.dtype == dt for e in elems)
+
+    def filler(k):
+        if dt.kind == "U":
+            return np.array(["gap"] * k, dtype=dt)
+        if dt.kind == "b":
+            return np.ones((k,), dtype=dt)
+        return np.full((k,), 77, dtype=dt)
+    chunks_, off, offs = [], 0, {}
+    assert sorted(plan["order"]) == list(range(n)), "a plan places every element once"
+    for pos, i in enumerate(plan["order"]):
+        if plan.get("missing_unplaced") and ndim > 0 and missing is not None and bool(missing[i]):
+            offs[i] = None
+            continue
+        gap = plan["gaps"][pos] if pos < len(plan.get("gaps") or []) else 0
+        if gap:
+            chunks_.append(filler(gap))
+            off += gap
+        flat = elems[i].ravel()
+        if plan.get("share") and same_dtype and dt.kind != "U" and chunks_:
+            hay, needle, w = np.concatenate(chunks_).tobytes(), flat.tobytes(), dt.itemsize
+            at = next((p for p in range(0, len(hay) - len(needle) + 1, w) if hay[p:p + len(needle)] == needle), None)
+            if at is not None:
+                offs[i] = at // w
+                continue
+        offs[i] = off
+        chunks_.append(flat)
+        off += flat.size
+    if plan.get("trail"):
+        chunks_.append(filler(plan["trail"]))
+    rows = [[0] * (ndim + 1) if offs[i] is None else [offs[i], *elems[i].shape] for i in range(n)]
+    data = np.concatenate(chunks_) if chunks_ else np.empty((0,), dtype=dt)
+    return rows, data
 
 
 def indep_write(store, g, enc):
@@ -187,20 +262,27 @@ def indep_write(store, g, enc):
                 dt = elems[0].dtype if elems else np.dtype("int64")
                 ndim = elems[0].ndim if elems else 1
                 rows, chunks_, off = [], [], 0
-                # the sections of `data` may lie in any order and leave gaps: lay them out back to front
-                order = list(range(len(elems)))
-                if rng.random() < 0.5:
-                    order.reverse()
-                offs = {}
-                for i in order:
-                    if rng.random() < 0.3:
-                        chunks_.append(np.zeros((rng.randint(1, 2),), dtype=dt) if dt.kind != "U" else np.array(["gap"], dtype=dt))
-                        off += len(chunks_[-1])
-                    offs[i] = off
-                    chunks_.append(elems[i].ravel())
-                    off += elems[i].size
-                rows = [[offs[i], *elems[i].shape] for i in range(len(elems))]
-                data = np.concatenate(chunks_) if chunks_ else np.empty((0,), dtype=dt)
+                plan = (enc.get("vlen_plan") or {}).get(f"{parent.path}:{name}")
+                if plan is None and enc.get("vlen_layout") == "free":
+                    plan = draw_plan(rng, len(elems))
+                if plan is not None:
+                    # LAYOUT FREEDOM: the offset table only has to point into `data` (see `lay_out`)
+                    rows, data = lay_out(elems, m, plan, dt)
+                else:
+                    # (encodings recorded before the layout plans existed) back to front, with gaps
+                    order = list(range(len(elems)))
+                    if rng.random() < 0.5:
+                        order.reverse()
+                    offs = {}
+                    for i in order:
+                        if rng.random() < 0.3:
+                            chunks_.append(np.zeros((rng.randint(1, 2),), dtype=dt) if dt.kind != "U" else np.array(["gap"], dtype=dt))
+                            off += len(chunks_[-1])
+                        offs[i] = off
+                        chunks_.append(elems[i].ravel())
+                        off += elems[i].size
+                    rows = [[offs[i], *elems[i].shape] for i in range(len(elems))]
+                    data = np.concatenate(chunks_) if chunks_ else np.empty((0,), dtype=dt)
                 table = np.asarray(rows, dtype=enc["vlen_values_dtype"]).reshape(len(elems), ndim + 1)
                 items = [("values", table), ("data", data)]
                 md.update(dtype=R.enc_arr(np.empty((0,), dtype=dt))["dtype"], varlength=True)
@@ -731,6 +813,35 @@ def observe_read(store, validate):
     return {"outcome": "ok", "graph": canon_graph(graph_of_inmem(o, o["metadata"].directed)), "inmem": R.enc_inmem(o)}
 
 
+def observe_build(store, node_mask, edge_mask):
+    """GeffReader(store) with every property loaded, .build(node_mask, edge_mask)"""
+    import geff
+
+    try:
+        r = geff.GeffReader(store)
+        r.read_node_props()
+        r.read_edge_props()
+        o = r.build(node_mask=None if node_mask is None else np.array(node_mask, dtype=bool),
+                    edge_mask=None if edge_mask is None else np.array(edge_mask, dtype=bool))
+    except BaseException as e:  # noqa: BLE001
+        return {"node_mask": node_mask, "edge_mask": edge_mask, "outcome": C01.exc_class(e), "msg": f"{type(e).__name__}: {e}"[:300]}
+    return {"node_mask": node_mask, "edge_mask": edge_mask, "outcome": "ok",
+            "graph": canon_graph(graph_of_inmem(o, o["metadata"].directed))}
+
+
+def restrict_graph(want, node_mask, edge_mask):
+    """the sub-graph a masked build is documented to return: the nodes selected by `node_mask`, the edges selected by
+    `edge_mask` whose two endpoints are both among the selected nodes; each property restricted to those rows"""
+    nodes = want["nodes"]
+    nk = [i for i in range(len(nodes)) if node_mask is None or node_mask[i]]
+    kept = {str(nodes[i]) for i in nk}
+    ek = [j for j, (u, v) in enumerate(want["edges"])
+          if (edge_mask is None or edge_mask[j]) and (node_mask is None or (str(u) in kept and str(v) in kept))]
+    return {**want, "nodes": [nodes[i] for i in nk], "edges": [want["edges"][j] for j in ek],
+            "node_props": [[nm, kind, [rows[i] for i in nk]] for nm, kind, rows in want["node_props"]],
+            "edge_props": [[nm, kind, [rows[j] for j in ek]] for nm, kind, rows in want["edge_props"]]}
+
+
 def dir1_run(case):
     """library writer -> dump -> (python decoder here; Lean decoder in the parent)"""
     from geff.core_io import write_arrays
@@ -787,6 +898,10 @@ def dir2_run(case):
             obs["py_decode_err"] = f"{type(e).__name__}: {e}"[:300]
         obs["read_validated"] = observe_read(store, True)
         obs["read_raw"] = observe_read(store, False)
+        # through GeffReader(...).build(): unmasked, and with the node / edge masks of the case (a masked read selects rows
+        # of the offset table; `data` has no per-element axis)
+        if "masks" in case:
+            obs["builds"] = [observe_build(store, None, None)] + [observe_build(store, mk.get("node"), mk.get("edge")) for mk in case["masks"]]
         # through geff.read with every graph-library backend whose domain the graph is in
         obs["backends"] = {}
         want = obs["want"]
@@ -1063,6 +1178,20 @@ def run(ck: common.Check):
                 ck.fail("C02:reader-returns-a-different-graph",
                         f"read_to_memory ({label}) returned a graph different from the one the store denotes", c,
                         R.strip_width(rd["graph"]), want)
+        # GeffReader(...).build(), unmasked and masked
+        for bd in ob.get("builds", []):
+            masked = bd["node_mask"] is not None or bd["edge_mask"] is not None
+            call = f"GeffReader(...).build(node_mask={bd['node_mask']}, edge_mask={bd['edge_mask']})" if masked else "GeffReader(...).build()"
+            ck.histogram[f"d2-build:{'masked' if masked else 'unmasked'}:{bd['outcome']}"] = \
+                ck.histogram.get(f"d2-build:{'masked' if masked else 'unmasked'}:{bd['outcome']}", 0) + 1
+            sub = restrict_graph(want, bd["node_mask"], bd["edge_mask"])
+            if bd["outcome"] != "ok":
+                ck.fail(classify_read_failure(bd, enc, g), f"{call} raised {bd['outcome']} on a specification-conformant store: {bd.get('msg')}",
+                        c, bd["outcome"], "ok")
+            elif R.strip_width(bd["graph"]) != sub:
+                ck.fail("C02:masked-build-returns-a-different-graph" if masked else "C02:build-returns-a-different-graph",
+                        f"{call} returned a graph different from " + ("the selected part of " if masked else "") + "the graph the store denotes",
+                        c, R.strip_width(bd["graph"]), sub)
         # the graph as every graph-library backend shows it
         for backend, bo in ob.get("backends", {}).items():
             ck.histogram[f"d2-backend:{backend}:{bo['outcome']}"] = ck.histogram.get(f"d2-backend:{backend}:{bo['outcome']}", 0) + 1
@@ -1239,9 +1368,19 @@ def replay(rp):
             good = rd["outcome"] == "ok" and R.strip_width(rd["graph"]) == want
             res[key] = {"outcome": rd["outcome"], "msg": rd.get("msg"), "graph_equals_denotation": good}
             ok = ok and good
+        for bd in ob.get("builds", []):
+            good = bd["outcome"] == "ok" and R.strip_width(bd["graph"]) == restrict_graph(want, bd["node_mask"], bd["edge_mask"])
+            res[f"build(node_mask={bd['node_mask']}, edge_mask={bd['edge_mask']})"] = {
+                "outcome": bd["outcome"], "msg": bd.get("msg"), "graph_equals_denotation": good,
+                **({} if good or bd["outcome"] != "ok" else {"returned_node_props": bd["graph"]["node_props"], "returned_edge_props": bd["graph"]["edge_props"]})}
+            ok = ok and good
         for backend, bo in ob.get("backends", {}).items():
             res["backend:" + backend] = bo
             ok = ok and bo["outcome"] == "ok" and not bo["diff"]
+        if not ok and ob.get("py_decode") is not None:
+            res["store_denotes"] = {"node_props": want["node_props"], "edge_props": want["edge_props"]}
+            res["stored_layout"] = [{"path": "/".join(e["path"]), **{k: e["arr"][k] for k in ("dtype", "shape", "flat")}} for e in ob.get("dump", [])
+                                    if e["kind"] == "array" and e["path"][-1] in ("values", "data") and any(x["path"] == e["path"][:-1] + ["data"] for x in ob["dump"])]
         print(json.dumps(res, ensure_ascii=False))
     print("REPLAY: property holds on this input" if ok else "REPLAY: property FAILS on this input")
     return 0 if ok else 1
